@@ -1,3 +1,5 @@
+pub mod c11;
+pub mod c12;
 pub mod forest_props;
 
 use crate::driver::PropEngine;
@@ -7,8 +9,10 @@ pub fn engine_for(id: &str) -> Option<Box<dyn PropEngine>> {
         "C04" => Some(Box::new(forest_props::ForestEngine::c04())),
         "C05" => Some(Box::new(forest_props::ForestEngine::c05())),
         "C06" => Some(Box::new(forest_props::ForestEngine::c06())),
+        "C11" => Some(Box::new(c11::engine())),
+        "C12" => Some(Box::new(c12::engine())),
         _ => None,
     }
 }
 
-pub const CLAIMED: [&str; 3] = ["C04", "C05", "C06"];
+pub const CLAIMED: [&str; 5] = ["C04", "C05", "C06", "C11", "C12"];
